@@ -384,6 +384,8 @@ void World::opBuild(const Item& op)
     else
         slot.b->setData(bd);
     slot.everSet = true;
+    if (++slot.setCalls == 257)
+        probe("more-than-256-setdata-calls-on-one-object");
     res.apiCalls++;
     Bytes after = slot.b->raw();
     evBytes(after.data(), after.size(), "built-payload");
